@@ -130,6 +130,11 @@ class Lower:
         if op == 'call':
             name = f.args[0]; xs = [s._a(a) for a in f.args[1:]]
             if m == 'REAL':
+                fl = lambda e: z3.ToReal(z3.ToInt(e))
+                if name == 'floor': return fl(xs[0])
+                if name == 'ceil': return -fl(-xs[0])
+                if name == 'trunc': return z3.If(xs[0] >= 0, fl(xs[0]), -fl(-xs[0]))
+                if name == 'round': return z3.If(xs[0] >= 0, fl(xs[0] + z3.RealVal('1/2')), -fl(-xs[0] + z3.RealVal('1/2')))      # C round(): halves away from zero
                 if name == 'fabs': return z3.If(xs[0] >= 0, xs[0], -xs[0])
                 if name == 'sqrt':
                     v = z3.FreshConst(s.R, 'sqrt'); s.side.append(z3.And(v >= 0, v * v == xs[0])); return v
